@@ -18,7 +18,7 @@ def _junk(rng, mode, live_sids, dead_sids):
     """One hostile item -> (frame spec, offending stream id or None if connection-level/undecodable)."""
     k = _pick(rng, [(3, 'random'), (2, 'short'), (2, 'unknown_type'), (3, 'truncated'), (3, 'unknown_stream'),
                     (2, 'finished_stream'), (2, 'orphan_fragment'), (2, 'out_of_place'), (1, 'ignore_garbage'),
-                    (1, 'push_on_stream'), (2, 'empty')])
+                    (1, 'push_on_stream'), (2, 'empty'), (3, 'reserved_bits')])
     if k == 'empty':
         return {'raw': ''}, None
     if k == 'random':
@@ -69,6 +69,27 @@ def _junk(rng, mode, live_sids, dead_sids):
     if k == 'ignore_garbage':
         t = rng.choice(['SETUP', 'REQUEST_N', 'ERROR', 'RESUME'])
         return {'raw': (rc._hdr(rng.randint(1, 100), rc.TYPE_BY_NAME[t], rc.F_IGNORE) + _rb(rng, rng.randint(0, 3))).hex()}, None
+    if k == 'reserved_bits':
+        # well-formed frames whose reserved bits / extreme field values a conforming peer never produces
+        w = rng.choice(['keepalive_pos', 'keepalive_pos', 'request_n', 'sid_top', 'flags', 'md_len'])
+        if w == 'keepalive_pos':
+            pos = rng.choice([(1 << 63) | rng.randint(0, 1000), (1 << 64) - 1, (1 << 63) - 1, 1 << 63])
+            return {'raw': (rc._hdr(0, rc.TYPE_BY_NAME['KEEPALIVE'], rc.F_FOLLOWS if rng.random() < 0.8 else 0)
+                            + pos.to_bytes(8, 'big') + _rb(rng, rng.randint(0, 6))).hex()}, None
+        if w == 'request_n':
+            sid = rng.randint(300, 400) * 2 + rng.randint(0, 1)
+            n = rng.choice([0, 1 << 31, (1 << 32) - 1, (1 << 31) | 5])
+            return {'raw': (rc._hdr(sid, rc.TYPE_BY_NAME['REQUEST_N'], 0) + n.to_bytes(4, 'big')).hex()}, sid
+        if w == 'sid_top':
+            sid = rng.randint(300, 400) * 2 + 1
+            return {'raw': (rc._hdr(sid | (1 << 31), rc.TYPE_BY_NAME['CANCEL'], 0)).hex()}, sid
+        if w == 'flags':
+            sid = rng.randint(300, 400) * 2 + 1
+            return {'raw': (rc._hdr(sid, rc.TYPE_BY_NAME[rng.choice(['CANCEL', 'REQUEST_N', 'PAYLOAD'])], 0x1F)
+                            + (5).to_bytes(4, 'big')).hex()}, sid
+        sid = rng.randint(300, 400) * 2 + 1
+        return {'raw': (rc._hdr(sid, rc.TYPE_BY_NAME['PAYLOAD'], rc.F_METADATA | rc.F_NEXT)
+                        + (rng.randint(10, 0xFFFFFF)).to_bytes(3, 'big') + _rb(rng, rng.randint(0, 5))).hex()}, sid
     if k == 'push_on_stream':
         sid = rng.randint(700, 800) * 2 + 1
         return {'frame': {'t': 'METADATA_PUSH', 'sid': sid, 'md': _rb(rng, 10).hex()}}, sid
